@@ -69,12 +69,24 @@ class Mirror(object):
     def set_post_stage_callback(self, cb):
         self._cb = cb
 
+    def _finite(self):
+        import numpy as np
+        for pa in self._arrays.values():
+            for p in ('x', 'y', 'z', 'h'):
+                if not np.all(np.isfinite(pa.get(p,
+                                                 only_real_particles=False))):
+                    raise FloatingPointError(
+                        'non-finite %s.%s reached the neighbour search' % (
+                            pa.name, p))
+
     def compute_accelerations(self, index=0, update_nnps=True):
         if update_nnps:
+            self._finite()
             self._nnps.update()
         self._interps[index].compute(self.t, self.dt)
 
     def update_domain(self):
+        self._finite()
         self._nnps.update_domain()
 
     def do_post_stage(self, stage_dt, stage):
